@@ -159,6 +159,41 @@ func (d *dec) collect() {
 	}
 }
 
+// copiesOf returns cell together with the cells it is a plain copy of or is
+// copied to (x = y with both sides identifiers or selectors), transitively.
+func (d *dec) copiesOf(cell string) []string {
+	adj := map[string][]string{}
+	ast.Inspect(d.fd.Body, func(n ast.Node) bool {
+		as, ok := n.(*ast.AssignStmt)
+		if !ok || len(as.Lhs) != len(as.Rhs) {
+			return true
+		}
+		for i := range as.Lhs {
+			switch as.Rhs[i].(type) {
+			case *ast.Ident, *ast.SelectorExpr:
+				switch as.Lhs[i].(type) {
+				case *ast.Ident, *ast.SelectorExpr:
+					a, b := d.text(as.Lhs[i]), d.text(as.Rhs[i])
+					adj[a] = append(adj[a], b)
+					adj[b] = append(adj[b], a)
+				}
+			}
+		}
+		return true
+	})
+	seen := map[string]bool{cell: true}
+	out := []string{cell}
+	for i := 0; i < len(out); i++ {
+		for _, nb := range adj[out[i]] {
+			if !seen[nb] {
+				seen[nb] = true
+				out = append(out, nb)
+			}
+		}
+	}
+	return out
+}
+
 // isTaintedValue: e is a decoded cell or a conversion of one (not an
 // arithmetic combination, which is handled by the sinks).
 func (d *dec) isTaintedValue(e ast.Expr) bool {
@@ -421,7 +456,16 @@ func checkDecoder(res *core.Result, pkg *packages.Package, fd *ast.FuncDecl, see
 				if id, ok := rs.Results[len(rs.Results)-1].(*ast.Ident); !ok || id.Name != "nil" {
 					continue
 				}
-				if !validatedBefore(cell, rs, true) {
+				// the check may have been made on the local the field
+				// was copied from (decode into temporaries, validate,
+				// then assign)
+				valid := false
+				for _, alias := range d.copiesOf(cell) {
+					if validatedBefore(alias, rs, true) {
+						valid = true
+					}
+				}
+				if !valid {
 					okAll = false
 				}
 			}
